@@ -46,18 +46,6 @@ def guarded(f):
 # ---------------------------------------------------------------------------
 # configurations: (op line for the model, constructor, functional map theta->array, expected rank by the property statement)
 # ---------------------------------------------------------------------------
-def tri(r):
-    return r * (r + 1) // 2
-
-
-def stiefel_dim(d, r, real):
-    return d * r - tri(r) if real else 2 * d * r - r * r
-
-
-def psd_dim(d, r, real):
-    return d * r - r * (r - 1) // 2 - 1 if real else 2 * d * r - r * r - 1
-
-
 def configs(dims):
     import torch
     Mm = M()
@@ -66,28 +54,20 @@ def configs(dims):
     for d in dims:
         for real in (True, False):
             rc = 'r' if real else 'c'
-            out.append(dict(op=f'C02 ball {d} {rc}', name=f'Ball({d},{rc})', mk=lambda d=d, real=real: Mm.Ball(d, dtype=cdt[real]),
-                            fn=lambda t, real=real: Mm.to_ball(t, real), rank=(d if real else 2 * d)))
+            out.append(dict(op=f'C02 ball {d} {rc}', name=f'Ball({d},{rc})', mk=lambda bs=None, d=d, real=real: Mm.Ball(d, batch_size=bs, dtype=cdt[real]),
+                            fn=lambda t, real=real: Mm.to_ball(t, real)))
             for q in (True, False):
                 meth = 'quotient' if q else 'coordinate'
-                out.append(dict(op=f'C02 sphere {d} {rc} {int(q)}', name=f'Sphere({d},{rc},{meth})', mk=lambda d=d, real=real, meth=meth: Mm.Sphere(d, method=meth, dtype=cdt[real]),
-                                fn=lambda t, real=real, q=q: (Mm.to_sphere_quotient if q else Mm.to_sphere_coordinate)(t, real), rank=(d - 1 if real else 2 * d - 1)))
+                out.append(dict(op=f'C02 sphere {d} {rc} {int(q)}', name=f'Sphere({d},{rc},{meth})', mk=lambda bs=None, d=d, real=real, meth=meth: Mm.Sphere(d, batch_size=bs, method=meth, dtype=cdt[real]),
+                                fn=lambda t, real=real, q=q: (Mm.to_sphere_quotient if q else Mm.to_sphere_coordinate)(t, real)))
             for r in range(1, d + 1):
                 for chol in (True, False):
                     meth = 'cholesky' if chol else 'ensemble'
                     out.append(dict(op=f'C02 psd {d} {r} {rc} {int(chol)}', name=f'Trace1PSD({d},{r},{rc},{meth})',
-                                    mk=lambda d=d, r=r, real=real, meth=meth: Mm.Trace1PSD(d, r, method=meth, dtype=cdt[real]),
-                                    fn=lambda t, d=d, r=r, chol=chol: (Mm.to_trace1_psd_cholesky if chol else Mm.to_trace1_psd_ensemble)(t, d, r), rank=psd_dim(d, r, real)))
+                                    mk=lambda bs=None, d=d, r=r, real=real, meth=meth: Mm.Trace1PSD(d, r, batch_size=bs, method=meth, dtype=cdt[real]),
+                                    fn=lambda t, d=d, r=r, chol=chol: (Mm.to_trace1_psd_cholesky if chol else Mm.to_trace1_psd_ensemble)(t, d, r)))
                 for meth in ('choleskyL', 'qr', 'polar', 'so-exp', 'so-cayley', 'euler'):
                     for ph in ((False, True) if (meth == 'euler' and not real) else (False,)):
-                        if meth in ('so-exp', 'so-cayley'):
-                            rk = (d * d - 1) if (not real and r == d) else stiefel_dim(d, r, real)
-                        elif meth == 'choleskyL':
-                            rk = (d * r - tri(r)) * (1 if real else 2)
-                        elif meth == 'euler':
-                            rk = d * r - tri(r) if real else (2 * d * r - r * r if ph else 2 * d * r - r * (r + 1))
-                        else:
-                            rk = stiefel_dim(d, r, real)
                         def fn(t, d=d, r=r, meth=meth, ph=ph):
                             if meth == 'choleskyL': return Mm.to_stiefel_choleskyL(t, d, r)
                             if meth == 'qr': return Mm.to_stiefel_qr(t, d, r)
@@ -96,51 +76,75 @@ def configs(dims):
                             if meth == 'so-cayley': return Mm.to_special_orthogonal_cayley(t, d)[..., :r]
                             return Mm.to_stiefel_euler(t, d, r, ph)
                         out.append(dict(op=f'C02 stiefel {d} {r} {rc} {meth} {int(ph)}', name=f'Stiefel({d},{r},{rc},{meth},phase={ph})',
-                                        mk=lambda d=d, r=r, real=real, meth=meth, ph=ph: Mm.Stiefel(d, r, method=meth, euler_with_phase=ph, dtype=cdt[real]), fn=fn, rank=rk))
+                                        mk=lambda bs=None, d=d, r=r, real=real, meth=meth, ph=ph: Mm.Stiefel(d, r, batch_size=bs, method=meth, euler_with_phase=ph, dtype=cdt[real]), fn=fn))
             for t0 in (False, True):
                 for n1 in (False, True):
                     npar = (d * (d + 1) // 2 if real else d * d) - int(t0)
                     out.append(dict(op=f'C02 sym {d} {rc} {int(t0)} {int(n1)}', name=f'SymmetricMatrix({d},{rc},trace0={t0},norm1={n1})',
-                                    mk=lambda d=d, real=real, t0=t0, n1=n1: Mm.SymmetricMatrix(d, is_trace0=t0, is_norm1=n1, dtype=cdt[real]),
-                                    fn=lambda t, d=d, t0=t0, n1=n1: Mm.to_symmetric_matrix(t, d, t0, n1), rank=npar - int(n1)))
+                                    mk=lambda bs=None, d=d, real=real, t0=t0, n1=n1: Mm.SymmetricMatrix(d, batch_size=bs, is_trace0=t0, is_norm1=n1, dtype=cdt[real]),
+                                    fn=lambda t, d=d, t0=t0, n1=n1: Mm.to_symmetric_matrix(t, d, t0, n1)))
             sod = d * (d - 1) // 2 if real else d * d - 1
-            out.append(dict(op=f'C02 so {d} {rc}', name=f'SpecialOrthogonal({d},{rc},exp)', mk=lambda d=d, real=real: Mm.SpecialOrthogonal(d, method='exp', dtype=cdt[real]),
-                            fn=lambda t, d=d: Mm.to_special_orthogonal_exp(t, d), rank=sod))
+            out.append(dict(op=f'C02 so {d} {rc}', name=f'SpecialOrthogonal({d},{rc},exp)', mk=lambda bs=None, d=d, real=real: Mm.SpecialOrthogonal(d, batch_size=bs, method='exp', dtype=cdt[real]),
+                            fn=lambda t, d=d: Mm.to_special_orthogonal_exp(t, d)))
             for order in (1, 2, 3):
                 out.append(dict(op=f'C02 so {d} {rc}', name=f'SpecialOrthogonal({d},{rc},cayley{order})',
-                                mk=lambda d=d, real=real, order=order: Mm.SpecialOrthogonal(d, method='cayley', cayley_order=order, dtype=cdt[real]),
-                                fn=lambda t, d=d, order=order: Mm.to_special_orthogonal_cayley(t, d, order), rank=sod))
+                                mk=lambda bs=None, d=d, real=real, order=order: Mm.SpecialOrthogonal(d, batch_size=bs, method='cayley', cayley_order=order, dtype=cdt[real]),
+                                fn=lambda t, d=d, order=order: Mm.to_special_orthogonal_cayley(t, d, order)))
+        weights = {
+            'None': lambda: None,
+            'float64': lambda d=d: np.linspace(0.5, 2.5, d),
+            'float32': lambda d=d: np.linspace(0.5, 2.5, d).astype(np.float32),
+            'int64': lambda d=d: np.arange(1, d + 1, dtype=np.int64),
+            'int32': lambda d=d: (np.arange(d, dtype=np.int32) % 3 + 1),
+            'int-all-2': lambda d=d: np.full(d, 2, dtype=np.int64),
+            'torch-float64': lambda d=d: torch.linspace(0.5, 2.5, d, dtype=torch.float64),
+            'torch-int64': lambda d=d: torch.arange(1, d + 1, dtype=torch.int64),
+        }
         for meth in ('softmax', 'sphere'):
-            out.append(dict(op=f'C02 prob {d}', name=f'DiscreteProbability({d},{meth})', mk=lambda d=d, meth=meth: Mm.DiscreteProbability(d, method=meth),
-                            fn=lambda t, meth=meth: (Mm.to_discrete_probability_softmax if meth == 'softmax' else Mm.to_discrete_probability_sphere)(t), rank=d - 1))
+            for wname, wf in weights.items():
+                out.append(dict(op=f'C02 prob {d}', name=f'DiscreteProbability({d},{meth},weight={wname})',
+                                mk=lambda bs=None, d=d, meth=meth, wf=wf: Mm.DiscreteProbability(d, batch_size=bs, method=meth, weight=wf()),
+                                fn=lambda t, meth=meth: (Mm.to_discrete_probability_softmax if meth == 'softmax' else Mm.to_discrete_probability_sphere)(t)))
     return out
 
 
+def model_lines(cfgs):
+    """`<parameter count> <rank claimed by the property>` from the Lean model (Count.*), one line per configuration"""
+    out = common.run_model([c['op'] for c in cfgs])
+    res = []
+    for line in out:
+        t = line.split(' ')
+        res.append((int(t[0]), int(t[1])) if len(t) == 2 and t[0].isdigit() and t[1].isdigit() else None)
+    return res
+
+
 def correspondence(ctx):
+    """model count == theta.shape[-1] of the constructor, for every class / option / batch_size, and the functional map accepts exactly that length.
+    (The *rank* column of the model is not compared with anything re-typed here: it is confronted with the real Jacobian in the probe.)"""
     import torch
     dims = list(range(2, 7)) if ctx.quick() else list(range(2, 9))
     cfgs = configs(dims)
-    ops = [c['op'] for c in cfgs]
-    out = common.run_model(ops)
-    for c, line in zip(cfgs, out):
+    ml = model_lines(cfgs)
+    for c, m_ in zip(cfgs, ml):
         ctx.count(c['op'].split(' ')[1])
-        m = guarded(c['mk'])
-        if isinstance(m, str):
-            ctx.disagree(c['op'], line, f"{c['name']} constructor raised {m}"); continue
-        n_impl = int(m.theta.shape[-1])
-        # the functional map accepts exactly this length (and rejects one more)
-        with torch.no_grad():
-            ok = guarded(lambda: c['fn'](torch.randn(n_impl, dtype=torch.float64)))
-        accept = not isinstance(ok, str)
-        impl = f'{n_impl} {c["rank"]}' if accept else f'{n_impl} functional map raised {ok}'
-        if line == impl:
-            ctx.agree(c['op'] + ' ' + c['name'], c['name'])
-        else:
-            ctx.disagree(c['op'] + ' ' + c['name'], line, impl)
-    for c, line in list(zip(cfgs, out))[:3]:
-        ctx.sample({'op': c['op'], 'class': c['name'], 'model(count rank)': line})
+        if m_ is None:
+            ctx.disagree(c['op'] + ' ' + c['name'], 'bad-op', 'constructor exists'); continue
+        for bs in (None, 3):
+            m = guarded(lambda: c['mk'](bs))
+            if isinstance(m, str):
+                ctx.disagree(c['op'] + ' ' + c['name'], str(m_[0]), f"{c['name']} constructor raised {m} (batch_size={bs})"); break
+            n_impl = int(m.theta.shape[-1])
+            shape_ok = tuple(m.theta.shape) == ((n_impl,) if bs is None else (bs, n_impl))
+            with torch.no_grad():
+                ok = guarded(lambda: c['fn'](torch.randn(n_impl, dtype=torch.float64)))
+            if n_impl == m_[0] and shape_ok and not isinstance(ok, str):
+                ctx.agree(f"{c['op']} {c['name']} bs={bs}", (c['name'], bs))
+            else:
+                ctx.disagree(f"{c['op']} {c['name']} bs={bs}", str(m_[0]), f'{n_impl} (theta.shape {tuple(m.theta.shape)}; functional map: {ok if isinstance(ok, str) else "accepts"})')
+    for c, m_ in list(zip(cfgs, ml))[:3]:
+        ctx.sample({'op': c['op'], 'class': c['name'], 'model(count, rank)': m_})
     ctx.extra['exhaustive'] = True
-    ctx.extra['exhaustive_domain'] = f'every class/option, dims {dims[0]}..{dims[-1]}, all ranks: constructor parameter count and claimed rank'
+    ctx.extra['exhaustive_domain'] = f'every class/option (incl. weight= of DiscreteProbability, batch_size None/3), dims {dims[0]}..{dims[-1]}, all ranks: constructor parameter count'
 
 
 # ---------------------------------------------------------------------------
@@ -169,6 +173,17 @@ def rank_of(J, k):
     return r, bool(hi_ok and lo_ok), sv
 
 
+def module_jacobian(m, th):
+    """Jacobian of module.forward() with respect to module.theta (the map the optimiser actually sees, class-level options included)"""
+    import torch
+    def f(t):
+        y = torch.func.functional_call(m, {'theta': t}, ())
+        if torch.is_complex(y):
+            y = torch.view_as_real(y)
+        return y.reshape(-1)
+    return torch.autograd.functional.jacobian(f, th, vectorize=False).detach().numpy().reshape(-1, th.numel())
+
+
 def probe(ctx):
     import torch
     rng = np.random.default_rng(ctx.np_seed + 5)
@@ -181,24 +196,31 @@ def probe(ctx):
         for c in cfgs:
             d = int(c['op'].split(' ')[2])
             p = 1.0 if d <= 4 else 0.5
-            if rng.random() < p or 'cayley' in c['name'] and ',r,' in c['name']:
+            if rng.random() < p or ('cayley' in c['name'] and ',r,' in c['name']) or 'weight=' in c['name']:
                 keep.append(c)
         cfgs = keep
+    ml = model_lines(cfgs)       # expected rank = the Lean model's Count.* (theorems count_*), NOT a formula re-typed in the harness
     ambiguous = 0
-    for c in cfgs:
-        m = guarded(c['mk'])
+    for c, m_ in zip(cfgs, ml):
+        if m_ is None:
+            ctx.fail('model-rejects-configuration', f"{c['name']}: the model has no such configuration ({c['op']})", dict(cls=c['name'])); continue
+        batch = 2 if rng.random() < (0.15 if ctx.quick() else 0.3) else None
+        m = guarded(lambda: c['mk'](batch))
         if isinstance(m, str):
             ctx.fail('constructor', f"{c['name']} raised {m}", dict(cls=c['name'])); continue
+        for p_ in m.parameters():
+            p_.requires_grad_(False)
         n = int(m.theta.shape[-1])
-        k = c['rank']
+        k = m_[1] * (1 if batch is None else batch)      # a batched module is `batch` independent copies: block-diagonal Jacobian
+        name = c['name'] + ('' if batch is None else f'[batch_size={batch}]')
         results = []
         attempts = 0
         while len(results) < draws and attempts < draws * 3:
             attempts += 1
-            th = torch.tensor(rng.normal(size=n), dtype=torch.float64)
-            J = guarded(lambda: jacobian(c['fn'], th))
+            th = torch.tensor(rng.normal(size=tuple(m.theta.shape)), dtype=m.theta.dtype)
+            J = guarded(lambda: module_jacobian(m, th))
             if isinstance(J, str):
-                ctx.fail('jacobian-raises', f"{c['name']}: autograd Jacobian raised {J}", dict(cls=c['name'], theta=th.tolist())); break
+                ctx.fail('jacobian-raises', f"{name}: autograd Jacobian of forward() raised {J}", dict(cls=name, theta=th.reshape(-1).tolist())); break
             r, clean, sv = rank_of(J, k)
             if not clean and r == k:
                 ambiguous += 1
@@ -212,38 +234,42 @@ def probe(ctx):
             key = 'rank-deficient' if r < k else 'rank-excess'
             if r == 0:
                 key = 'constant-map'
-            ctx.fail(key, f"{c['name']}: differential has rank {r} at a generic point, the property claims {k} "
+            ctx.fail(key, f"{name}: differential of forward() has rank {r} at a generic point, the property claims {k} "
                           f"(singular values {np.array2string(sv[:min(len(sv), k + 2)], precision=3)})",
-                     dict(cls=c['name'], n_param=n, expected_rank=k, observed_rank=r, theta=th.tolist(), singular_values=sv.tolist()))
+                     dict(cls=name, n_param=n, expected_rank=k, observed_rank=r, theta=th.reshape(-1).tolist(), singular_values=sv.tolist()))
         else:
             for r, th, sv in results:
-                ctx.probe_ok((c['name'], tuple(np.round(th.numpy()[:3], 6))))
-    ctx.extra['rank_criterion'] = (f'rank = #(sigma_i > {RANK_REL}*sigma_1) of the float64 autograd Jacobian (real and imaginary parts stacked); a draw is used when '
-                                   f'sigma_k >= {CLEAN_HI}*sigma_1 and sigma_(k+1) <= {CLEAN_LO}*sigma_1 or when the rank differs from the claim; verdict by majority over the draws')
+                ctx.probe_ok((name, tuple(np.round(th.reshape(-1).numpy()[:3], 6))))
+    ctx.extra['rank_criterion'] = (f'rank = #(sigma_i > {RANK_REL}*sigma_1) of the float64 autograd Jacobian of module.forward() w.r.t. module.theta (real and imaginary parts stacked); '
+                                   f'a draw is used when sigma_k >= {CLEAN_HI}*sigma_1 and sigma_(k+1) <= {CLEAN_LO}*sigma_1 or when the rank differs from the claim; verdict by majority over the draws')
     ctx.extra['ambiguous_draws_redrawn'] = ambiguous
-    ctx.note('PARTIAL: the generic-point rank is searched numerically, not proved; the theorems cover counting, linear injectivity of the placements and the base-point differentials')
-    ctx.assumptions.append('generic point = standard normal theta; expected rank = manifold dimension of the property statement (parameter count for the minimal complex charts choleskyL / euler without phase; d^2-1 for SU(d) columns with rank = dim)')
+    ctx.note('PARTIAL: the generic-point rank of the matrix charts is searched numerically, not proved; expected rank = Lean model Count.* (driver), observed rank = Jacobian of the real module')
+    ctx.assumptions.append('generic point = standard normal theta; expected rank = manifold dimension of the property statement as defined in NumqiModel.Manifold.Count (parameter count for the minimal complex charts choleskyL / euler without phase; d^2-1 for SU(d) columns with rank = dim)')
 
 
 def search(ctx, hints):
     # a count disagreement has no input-level failing point beyond the configuration itself: evaluate the Jacobian of the hinted configurations
     import torch
     rng = np.random.default_rng(ctx.np_seed + 6)
-    names = {h['op'].split(' ', 2)[-1] if False else h['op'] for h in hints}
-    for c in configs([2, 3, 4]):
-        if not any(c['name'] in n for n in names):
-            continue
-        m = guarded(c['mk'])
-        if isinstance(m, str):
+    names = {h['op'] for h in hints}
+    cfgs = [c for c in configs([2, 3, 4]) if any(c['name'] in n for n in names)]
+    for c, m_ in zip(cfgs, model_lines(cfgs)):
+        m = guarded(lambda: c['mk'](None))
+        if isinstance(m, str) or m_ is None:
             ctx.fail('constructor', f"{c['name']} raised {m}", dict(cls=c['name'])); continue
+        for p_ in m.parameters():
+            p_.requires_grad_(False)
         n = int(m.theta.shape[-1])
-        th = torch.tensor(rng.normal(size=n), dtype=torch.float64)
-        J = guarded(lambda: jacobian(c['fn'], th))
+        th = torch.tensor(rng.normal(size=n), dtype=m.theta.dtype)
+        J = guarded(lambda: module_jacobian(m, th))
+        J2 = guarded(lambda: jacobian(c['fn'], torch.tensor(rng.normal(size=n), dtype=torch.float64)))
+        if isinstance(J2, str):
+            ctx.fail('jacobian-raises', f"{c['name']}: the functional map does not accept the module's parameter vector ({J2})", dict(cls=c['name'], n_param=n)); continue
         if isinstance(J, str):
-            ctx.fail('jacobian-raises', f"{c['name']}: the functional map does not accept the module's parameter vector ({J})", dict(cls=c['name'], n_param=n)); continue
-        r, clean, sv = rank_of(J, c['rank'])
-        if r != c['rank']:
-            ctx.fail('rank-deficient' if r < c['rank'] else 'rank-excess', f"{c['name']}: rank {r}, claimed {c['rank']}", dict(cls=c['name'], theta=th.tolist(), singular_values=sv.tolist()))
+            ctx.fail('jacobian-raises', f"{c['name']}: autograd Jacobian of forward() raised {J}", dict(cls=c['name'], n_param=n)); continue
+        r, clean, sv = rank_of(J, m_[1])
+        if r != m_[1]:
+            ctx.fail('rank-deficient' if r < m_[1] else 'rank-excess', f"{c['name']}: rank {r}, claimed {m_[1]}", dict(cls=c['name'], theta=th.tolist(), singular_values=sv.tolist()))
 
 
 def replay(ctx, payload):
